@@ -659,21 +659,42 @@ Qed.
 (* builtin_array.go relToIdx, array.go toIdx, runtime.go toIntStrict / toIntClamp (64-bit int): no counterpart in
    the model; tied to their plain specification *)
 
+(* shape-independent: unwrap the in-range additions, split on every condition, decide with lia *)
+Ltac unwrap64 :=
+  repeat match goal with
+  | |- context [GoSem.wrapS 64 ?z] => rewrite (wrap64_in z) by (unfold in_int64 in *; lia)
+  | H : context [GoSem.wrapS 64 ?z] |- _ => rewrite (wrap64_in z) in H by (unfold in_int64 in *; lia)
+  end.
+Ltac split_conds :=
+  repeat match goal with
+  | |- context [if ?c then _ else _] => destruct c eqn:?
+  end;
+  repeat match goal with
+  | H : (_ && _) = true |- _ => apply andb_prop in H; destruct H
+  | H : (_ && _) = false |- _ => apply andb_false_iff in H; destruct H
+  | H : (_ <=? _) = true |- _ => apply Z.leb_le in H
+  | H : (_ <=? _) = false |- _ => apply Z.leb_gt in H
+  | H : (_ <? _) = true |- _ => apply Z.ltb_lt in H
+  | H : (_ <? _) = false |- _ => apply Z.ltb_ge in H
+  | H : (_ =? _) = true |- _ => apply Z.eqb_eq in H
+  | H : (_ =? _) = false |- _ => apply Z.eqb_neq in H
+  end.
+
 Theorem relToIdx_gen_spec : forall rel l, in_int64 rel -> 0 <= l <= two53 ->
   relToIdx_gen rel l = (if 0 <=? rel then Z.min rel l else Z.max (l + rel) 0) /\
   0 <= relToIdx_gen rel l <= l.
 Proof.
-  intros rel l R L. unfold relToIdx_gen, go_min, go_max, in_int64, two53 in *.
-  destruct (Z.leb_spec 0 rel).
-  - split; [reflexivity | lia].
-  - rewrite wrap64_in by (unfold in_int64; lia). split; [reflexivity | lia].
+  intros rel l R L. unfold relToIdx_gen, go_min, go_max, two53 in *. cbv zeta.
+  assert (R' := R). unfold in_int64 in R'.
+  split; unwrap64; split_conds; unwrap64; lia.
 Qed.
 
-Theorem toIdx_gen_spec : forall v, toIdx_gen v = (if (0 <=? v) && (v <? 4294967295) then v else 4294967295) /\
+Theorem toIdx_gen_spec : forall v, in_int64 v ->
+  toIdx_gen v = (if (0 <=? v) && (v <? 4294967295) then v else 4294967295) /\
   0 <= toIdx_gen v <= 4294967295.
 Proof.
-  intro v. unfold toIdx_gen. destruct (Z.leb_spec 0 v); destruct (Z.ltb_spec v 4294967295); cbn [andb]; try (split; [reflexivity | lia]).
-  unfold to_uint32, GoSem.wrapU. change (2 ^ 32) with 4294967296. rewrite Z.mod_small by lia. split; [reflexivity | lia].
+  intros v V. unfold toIdx_gen, to_uint32, GoSem.wrapU. cbv zeta. change (2 ^ 32) with 4294967296.
+  split; split_conds; try rewrite Z.mod_small by lia; lia.
 Qed.
 
 Theorem toIntStrict_gen_id : forall i, toIntStrict_gen i = i.
